@@ -145,6 +145,16 @@ def check_case(prog, env, pid, want_schedules=True, forms=None, sched_cap=48):
                     errs, closure = monitors.c04(forms, ['a'], rq, requested_lines=[line])
                     for kind, msg in errs:
                         viols.append((kind, f'requested line {line}: {msg}', {'field_names': [line]}))
+    if pid in ('C01', 'C04'):
+        # a line named in field_names whose form is not among the requested ones: aborting is fine; returning success
+        # without that line is not
+        for l in prog:
+            if l['form'] == 'b':
+                line = f"b.{l['name']}"
+                rq = world.run_solve(forms, ['a'], env['file'], answer=world.scripted_answer(env['answers']), schedule=world.Schedule('natural'), field_names=[line])
+                cnt['executions'] += 1
+                if rq.exc is None and rq.verdict and l['name'] not in rq.solution.get('b', {}):
+                    viols.append(('named-line-missing', f'solve([a], field_names=[{line}]) returns True without a value for {line}', {'field_names': [line]}))
     if pid == 'C01' and r0.exc is None:
         # histories on one store: solve; delete one supplied input from the SAME store object; solve again (no prompt).
         # The second solve must be the fixed point of the reduced inputs (nothing remembered from the first).
@@ -190,6 +200,24 @@ def check_case(prog, env, pid, want_schedules=True, forms=None, sched_cap=48):
             ref2 = refeval.Ref(forms, [first, second], r1.final_inputs).run()
             if ref2.abort is None and bool(v2) != ref2.solved():
                 viols.append(('second-call:verdict', f'solve([{first}]) then solve([{second}]) returns {v2}; both requests together: solved={ref2.solved()}', None))
+    if pid == 'C13' and r0.exc is None and r0.refused:
+        # history on one Solver: the user declines a question; the declined inputs are then supplied in the store; a
+        # second solve() on the same Solver must not ask for anything the store now supplies
+        rs = world.run_solve(forms, ['a'], env['file'], answer=world.scripted_answer(env['answers']), schedule=world.Schedule('natural'), keep_solver=True)
+        cnt['executions'] += 1
+        if rs.exc is None:
+            declined = [p[0] for p in rs.prompts if p[2] is None]
+            try:
+                for name in declined:
+                    rs.store[name] = 'yes' if name.endswith('.p') else '1'
+                n0 = len(rs.prompts)
+                rs.solver.solve(['a'])
+                cnt['executions'] += 1
+                again = [p[0] for p in rs.prompts[n0:] if p[0] in declined]
+                if again:
+                    viols.append(('asked-supplied', f'declined {declined}, supplied them, second solve() on the same Solver asks for {again}', None))
+            except Exception:
+                pass
     if pid == 'C13' and r0.exc is None and not r0.refused:
         # write back -> second run asks nothing and reproduces the solution
         env2 = dict(file=dict(r0.final_inputs), answers={})
@@ -249,6 +277,8 @@ def program_sets(tier):
             ('N=3,K<=1,core ops,one form', lambda: e2a.programs(3, 1, rich=False, forms=('a',))),
             ('N=3,K<=1,core ops,lines a a b', lambda: e2a.programs(3, 1, rich=False, place_filter=lambda pl: [f for f, r in pl] == ['a', 'a', 'b'])),
             ('N=2,K<=1,colliding names', lambda: e2a.programs(2, 1, naming='collide')),
+            ('N=3,K<=1,core ops,lines a b b / a a b,same base names', lambda: e2a.programs(3, 1, rich=False, naming='perform',
+                                                                      place_filter=lambda pl: [f for f, r in pl] in (['a', 'b', 'b'], ['a', 'a', 'b']))),
             ('N=3,K<=1,core ops,one form,colliding names', lambda: (p for p in e2a.programs(3, 1, rich=False, forms=('a',), naming='collide')
                                                                      if sum(len(l['body']) for l in p) <= 2))]
     if tier == 'thorough':
